@@ -151,6 +151,8 @@ fn mul_pow2(mut x: f64, mut y: i32) -> f64 {
 /// Exact results for the expression `exp(n/128) - 1` for `|n| <= 32`
 fn expm1_128th(n: i32) -> TwoFloat {
     assert!(n.abs() <= 32);
+    #[cfg(feature = "verif_hooks")]
+    crate::verif_hooks::touch(crate::verif_hooks::SITE_EXPM1_128TH, (n + 32) as usize);
 
     const EXPM1_128TH: [TwoFloat; 65] = [
         TwoFloat {
@@ -880,10 +882,17 @@ fn exp_half(n: i32) -> TwoFloat {
 
     // TODO: Check that the inversion doesn't lose precision
     if n.is_negative() {
+        #[cfg(feature = "verif_hooks")]
+        crate::verif_hooks::touch(crate::verif_hooks::SITE_EXP_HALF_NEG, 0);
         return 1.0 / exp_half(-n);
     }
 
     let (a, b) = ((n / 32) as usize, (n % 32) as usize);
+    #[cfg(feature = "verif_hooks")]
+    {
+        crate::verif_hooks::touch(crate::verif_hooks::SITE_EXP_16_N, a);
+        crate::verif_hooks::touch(crate::verif_hooks::SITE_EXP_HALF_N, b);
+    }
 
     match (a > 0, b > 0) {
         (true, true) => EXP_16_N[a - 1] * EXP_HALF_N[b - 1],
